@@ -17,7 +17,7 @@ PROPS = {
         "verus": [("kmer", ["u64", "u128"])],
         "functions": BITS_FNS + SPLIT_FNS,
         "kani": [("tables", ["oracle_bijective", "iupac_union", "iupac_order_independent", "encode_decode_consistent", "valid_base_n"]),
-                 ("palin", None)],
+                 ("palin", None), ("tablefrag", ["add_to_dict_modify_is_union", "add_to_dict_insert_is_singleton", "add_to_dict_two_observations_commute"])],
         "bounded": [],
     },
     "C02": {
@@ -26,13 +26,13 @@ PROPS = {
         "functions": ["encode_base", "valid_base", "rc_base", "UInt::rev_comp", "UInt::generate_masks",
                       "SplitKmer::build", "SplitKmer::update_rc", "SplitKmer::roll_fwd", "SplitKmer::new",
                       "SplitKmer::get_curr_kmer", "SplitKmer::get_next_kmer", "SplitKmer::self_palindrome"],
-        "kani": [("tables", ["iupac_order_independent", "encode_decode_consistent", "valid_base_n"]), ("palin", None)],
+        "kani": [("tables", ["iupac_order_independent", "encode_decode_consistent", "valid_base_n"]), ("palin", None), ("tablefrag", ["add_to_dict_two_observations_commute"])],
         "bounded": [],
     },
     "C06": {
         "level": "proof",
         "verus": [("rowfrag", [None])],
-        "functions": ["is_ambiguous", "filter.keep_noconst", "filter.keep_noambig", "filter.collect_types", "filter.weight_step",
+        "functions": ["is_ambiguous", "filter.keep_noconst", "filter.keep_noambig", "filter.collect_types", "filter.weight_step", "filter.mask_cell",
                       "update_counts.count_pred"],
         "kani": [("tables", ["oracle_bijective", "is_ambiguous_classification"]), ("wrappers", None), ("rowfragk", ["count_pred_all_bytes"])],
         "bounded_quick": [{"group": "rowfragk", "name": "bounded_keep_noconst_len4", "bound": "rows of length <= 4 over 8 representative symbols"},
@@ -56,7 +56,7 @@ PROPS = {
         "functions": ["AlnWriter::new", "AlnWriter::total_size", "AlnWriter::fill_fwd_bases", "AlnWriter::fill_contig",
                       "AlnWriter::write_split_kmer", "AlnWriter::finalise", "AlnWriter::get_seq", "is_ambiguous",
                       "RefSka::new.repeat_coords"],
-        "kani": [("tables", ["oracle_bijective", "rc_iupac_complement", "rc_iupac_fixed_points", "is_ambiguous_classification"])],
+        "kani": [("tables", ["oracle_bijective", "rc_iupac_complement", "rc_iupac_fixed_points", "is_ambiguous_classification"]), ("tablefrag", ["map_strand_correction"])],
         "bounded": [],
     },
     "C05": {
@@ -80,7 +80,7 @@ PROPS = {
         "level": "proof",
         "verus": [],
         "functions": [],
-        "kani": [("tables", None)],
+        "kani": [("tables", None), ("tablefrag", None)],
         "bounded": [],
     },
     "C16": {
@@ -98,6 +98,7 @@ PROPS = {
 KANI_GROUPS = {
     "tables": {"attach": "src/ska_dict/bit_encoding.rs", "file": "tables_harness.rs", "complete": True},
     "rollstep": {"attach": "src/ska_dict/split_kmer.rs", "file": "rollstep_harness.rs", "complete": True},
+    "tablefrag": {"fragment_unit": "tablefrag_k", "file": "tablefrag_harness.rs", "complete": True},
     "rowfragk": {"fragment_unit": "rowfrag_k", "file": "rowfrag_harness.rs", "complete": False},
     "wrappers": {"attach": "src/merge_ska_array.rs", "file": "wrappers_harness.rs", "complete": True, "args": ["-Z", "stubbing"]},
     "bitops": {"attach": "src/ska_dict/bit_encoding.rs", "file": "bitops_harness.rs", "complete": True},
